@@ -14,5 +14,6 @@ func controlsC12() []Control {
 		{Name: "blinds count as set without a dealer amount", Expect: "R5", Mutate: replaceIn("(TableBlindState).IsSet", "bs.Dealer != UnsetValue && ", "", 0)},
 		{Name: "blinds count as set at level zero", Expect: "R5", Mutate: replaceIn("(TableBlindState).IsSet", "bs.Level != 0", "bs.Level != -1", 0)},
 		{Name: "MTT creation with players overwrites the break pause", Expect: "R5", Mutate: replaceIn("(*tableEngine).CreateTable", "table.State.Status != TableStateStatus_TablePausing", "table.State.Status != TableStateStatus_TableBalancing", 0)},
+		{Name: "open step asks the previous hand snapshot whether blinds are set", Expect: "R5", Mutate: replaceIn("(*tableEngine).openGame", "if !oldTable.State.BlindState.IsSet() {", "if !oldTable.State.GameBlindState.IsSet() {", 0)},
 	}
 }
